@@ -4,7 +4,7 @@
    association list (any order; a shadowed binding is invisible, exactly as in
    the model, which looks every key up). *)
 From Coq Require Import List Bool String Ascii NArith ZArith Lia.
-From NV Require Import Base GoLib C04_DN C04_Model C04_Proofs C04_Gen.
+From NV Require Import Base GoLib C04_DN C04_Model C04_Proofs C04_Audit C04_Gen.
 Import ListNotations.
 Local Open Scope string_scope.
 Local Open Scope list_scope.
@@ -48,3 +48,537 @@ Corollary C04_gen_IsSubsetDN_within :
   forall dn1 dn2, gen_pkix_IsSubsetDN dn1 dn2 = true <-> within dn1 dn2.
 Proof. intros a b. rewrite C04_gen_IsSubsetDN_equiv. apply is_subset_dn_spec. Qed.
 Print Assumptions C04_gen_IsSubsetDN_within.
+
+(* ====================================================================
+   The functions around IsSubsetDN (added with targets_c04.go): slices.Contains,
+   verifier.verifyX509TrustedIdentities, verifier.isCriticalFailure,
+   trustpolicy.validateOverlappingDNs, trustpolicy.validateTrustedIdentities.
+
+   pkix.ParseDistinguishedName is an ORACLE of the translation (its body writes
+   through a pointer returned by go-ldap, internal/pkix/pkix.go:43: outside the
+   GoLite subset), crypto/x509.Certificate is opaque with the view
+   Subject.String().  After the Section of C04_Gen.v every generated function takes
+   what it uses of  parse, X (the certificate type), subj  as leading arguments.
+   The hypotheses about the oracle:
+     parse_agrees parse cls          parse answers like the model of it
+                                     (C04_DN.parse_distinguished_name): the parsed map
+                                     and no error, or an error that [cls] reads as the
+                                     model's error class;
+     parse_errors_foreign parse      no error of the oracle carries one of
+                                     verifyX509TrustedIdentities' OWN messages (the
+                                     function returns the oracle's error unwrapped, so
+                                     the reading of a returned error must be able to tell
+                                     them apart).
+   Both are satisfiable (C04_gen_oracle_hypotheses_satisfiable).
+   Errors are compared through abstractions that look at the error's format
+   string only (message texts are not modelled): which rule fired.
+   ==================================================================== *)
+
+Ltac case_const c x :=
+  let E := fresh "E" in
+  destruct (String.eqb c x) eqn:E; [apply String.eqb_eq in E; subst x|].
+
+(* ---------- slices.Contains ---------- *)
+
+Theorem C04_gen_Contains_equiv :
+  forall l v, gen_slices_Contains_string l v = mem_str v l.
+Proof.
+  intros l v. unfold gen_slices_Contains_string, mem_str.
+  induction l as [|x l IH]; [reflexivity|].
+  cbn [gen_slices_Contains_string_loop1 existsb]. destruct (String.eqb v x); [reflexivity|exact IH].
+Qed.
+Print Assumptions C04_gen_Contains_equiv.
+
+(* ---------- the oracle ---------- *)
+
+Definition parse_agrees (parse : string -> amap * option err) (cls : err -> dnerr) : Prop :=
+  forall v, match parse_distinguished_name v with
+            | DOk m => parse v = (m, None)
+            | DErr e => exists dn x, parse v = (dn, Some x) /\ cls x = e
+            end.
+
+(* ---------- verifyX509TrustedIdentities: which rule fired ---------- *)
+
+(* vclass with the reason of an unreadable LEAF subject erased: the code formats the
+   parse error of the leaf with %q (not %w), the returned value does not carry it *)
+Inductive vkind :=
+| KPass | KNoSep | KEmptyValue | KBadIdentity (e : dnerr) | KNoX509 | KBadLeaf | KNoMatch | KPanic | KOther.
+
+Definition kind_of (v : vclass) : vkind :=
+  match v with
+  | VPass => KPass | VNoSep => KNoSep | VEmptyValue => KEmptyValue
+  | VBadIdentity e => KBadIdentity e | VNoX509 => KNoX509 | VBadLeaf _ => KBadLeaf
+  | VNoMatch => KNoMatch | VPanic => KPanic
+  | VPluginFail | VStoreFail => KOther       (* never results of verify_identities *)
+  end.
+
+(* the phrases by which the correspondence harness recognises the messages
+   (harness/cmd/vh-c04/api.go, classifyVerifyErr) *)
+Definition vtable : list (string * vkind) :=
+  [("missing separator", KNoSep);
+   ("without an identity value", KEmptyValue);
+   ("no x509 trusted identities are configured", KNoX509);
+   ("error while parsing the certificate subject from the digital signature", KBadLeaf);
+   ("does not match the X.509 trusted identities", KNoMatch)].
+
+Fixpoint vclassify (t : list (string * vkind)) (f : string) : option vkind :=
+  match t with
+  | [] => None
+  | (p, k) :: t' => if str_contains p f then Some k else vclassify t' f
+  end.
+
+Definition own_vkind (x : err) : option vkind := vclassify vtable (err_fmt x).
+
+Definition parse_errors_foreign (parse : string -> amap * option err) : Prop :=
+  forall v dn x, parse v = (dn, Some x) -> own_vkind x = None.
+
+(* the result of the generated function: None = run-time panic (certs[0] on an empty
+   chain), Some None = nil, Some (Some x) = error x; an error that is not one of the
+   function's own messages is the oracle's error for an identity value *)
+Definition vkind_of (cls : err -> dnerr) (r : option (option err)) : vkind :=
+  match r with
+  | None => KPanic
+  | Some None => KPass
+  | Some (Some x) => match own_vkind x with Some k => k | None => KBadIdentity (cls x) end
+  end.
+
+(* what verify_identities does once the identities are collected *)
+Definition verify_tail (maps : list amap) (chain : list string) : vclass :=
+  match maps with
+  | [] => VNoX509
+  | _ => match chain with
+         | [] => VPanic
+         | leaf :: _ =>
+             match parse_distinguished_name leaf with
+             | DErr e => VBadLeaf e
+             | DOk m => if existsb (fun i => is_subset_dn i m) maps then VPass else VNoMatch
+             end
+         end
+  end.
+
+Lemma verify_identities_tail ids chain :
+  verify_identities ids chain
+  = if mem_str wildcard ids then VPass
+    else match collect_ids ids with inl e => e | inr maps => verify_tail maps chain end.
+Proof.
+  unfold verify_identities, verify_tail. destruct (mem_str wildcard ids); [reflexivity|].
+  destruct (collect_ids ids) as [e|[|i l]]; reflexivity.
+Qed.
+
+Lemma verify_loop2 (K : unit -> option (option err)) m : forall l,
+  gen_verifier_verifyX509TrustedIdentities_loop2 K m l
+  = if existsb (fun i => is_subset_dn i m) l then Some None else K tt.
+Proof.
+  induction l as [|i l IH]; [reflexivity|].
+  cbn [gen_verifier_verifyX509TrustedIdentities_loop2 existsb]. rewrite C04_gen_IsSubsetDN_equiv.
+  destruct (is_subset_dn i m); [reflexivity|exact IH].
+Qed.
+
+Section Verify.
+Variable X : Type.
+Variable subj : X -> string.
+Variable parse : string -> amap * option err.
+Variable cls : err -> dnerr.
+Hypothesis Hp : parse_agrees parse cls.
+Hypothesis Hf : parse_errors_foreign parse.
+
+Lemma verify_loop1 certs : forall ids acc,
+  vkind_of cls (gen_verifier_verifyX509TrustedIdentities_loop1 parse X subj certs ids acc)
+  = kind_of match collect_ids ids with
+            | inl e => e
+            | inr l => verify_tail (acc ++ l) (map subj certs)
+            end.
+Proof.
+  induction ids as [|id rest IH]; intros acc.
+  - cbn [gen_verifier_verifyX509TrustedIdentities_loop1 collect_ids]. rewrite app_nil_r, list_len_zero.
+    destruct acc as [|a acc]; [vm_compute; reflexivity|].
+    change 0%Z with (Z.of_nat 0). rewrite list_get_nth.
+    destruct certs as [|c cs]; [reflexivity|]. cbn [nth_error map verify_tail].
+    pose proof (Hp (subj c)) as Hl. destruct (parse_distinguished_name (subj c)) as [m|e].
+    + rewrite Hl. cbn [is_none negb]. rewrite verify_loop2.
+      destruct (existsb (fun i => is_subset_dn i m) (a :: acc)); [reflexivity|vm_compute; reflexivity].
+    + destruct Hl as [dn [x [Hl _]]]. rewrite Hl. cbn [is_none negb]. vm_compute. reflexivity.
+  - cbn [gen_verifier_verifyX509TrustedIdentities_loop1 collect_ids]. rewrite str_cut_byte.
+    unfold colon, x509_subject.
+    destruct (cut_byte ":" id) as [[p v]|]; cbn [negb]; [|vm_compute; reflexivity].
+    destruct (String.eqb p "x509.subject"); cbn [negb]; [|apply IH].
+    destruct (String.eqb v ""); [vm_compute; reflexivity|].
+    pose proof (Hp v) as Hv. destruct (parse_distinguished_name v) as [m|e].
+    + rewrite Hv. cbn [is_none negb]. rewrite IH.
+      destruct (collect_ids rest) as [e|l]; [reflexivity|]. rewrite <- app_assoc. reflexivity.
+    + destruct Hv as [dn [x [Hv Hc]]]. rewrite Hv. cbn [is_none negb vkind_of kind_of].
+      rewrite (Hf v dn x Hv), Hc. reflexivity.
+Qed.
+
+(* the code's verifyX509TrustedIdentities is the model's verify_identities on the
+   Subject.String() values of the chain, for ALL identity lists and chains *)
+Lemma verify_equiv name ids certs :
+  vkind_of cls (gen_verifier_verifyX509TrustedIdentities parse X subj name ids certs)
+  = kind_of (verify_identities ids (map subj certs)).
+Proof.
+  unfold gen_verifier_verifyX509TrustedIdentities. rewrite verify_identities_tail, C04_gen_Contains_equiv.
+  unfold wildcard. destruct (mem_str "*" ids); [reflexivity|].
+  rewrite verify_loop1. reflexivity.
+Qed.
+
+End Verify.
+
+Theorem C04_gen_verifyX509TrustedIdentities_equiv :
+  forall (X : Type) (subj : X -> string) parse cls,
+    parse_agrees parse cls -> parse_errors_foreign parse ->
+  forall name ids certs,
+    vkind_of cls (gen_verifier_verifyX509TrustedIdentities parse X subj name ids certs)
+    = kind_of (verify_identities ids (map subj certs)).
+Proof. exact verify_equiv. Qed.
+Print Assumptions C04_gen_verifyX509TrustedIdentities_equiv.
+
+(* ---------- the property, transported onto the code as translated ---------- *)
+
+Lemma own_vkind_not_pass x : own_vkind x <> Some KPass.
+Proof.
+  unfold own_vkind, vtable. cbn [vclassify].
+  repeat match goal with |- context [if ?c then _ else _] => destruct c end; discriminate.
+Qed.
+
+Lemma vkind_pass cls r : vkind_of cls r = KPass <-> r = Some None.
+Proof.
+  split; [|intros ->; reflexivity].
+  destruct r as [[x|]|]; cbn [vkind_of]; [|reflexivity|discriminate].
+  pose proof (own_vkind_not_pass x) as H. destruct (own_vkind x) as [k|]; [|discriminate].
+  intros ->. exfalso. apply H. reflexivity.
+Qed.
+
+Lemma kind_pass v : kind_of v = KPass <-> v = VPass.
+Proof. destruct v; cbn; split; congruence. Qed.
+
+(* C04_match on the code: without a wildcard, verifyX509TrustedIdentities returns nil
+   exactly when the LEAF subject can be interpreted, every listed identity can be
+   interpreted, and every attribute of some x509.subject identity occurs with an
+   equal value in the leaf subject *)
+Theorem C04_gen_verify_pass_iff :
+  forall (X : Type) (subj : X -> string) parse cls,
+    parse_agrees parse cls -> parse_errors_foreign parse ->
+  forall name ids leaf rest, mem_str wildcard ids = false ->
+    (gen_verifier_verifyX509TrustedIdentities parse X subj name ids (leaf :: rest) = Some None <->
+     exists m, parse_distinguished_name (subj leaf) = DOk m /\
+               (forall id, In id ids -> interpretable id) /\
+               exists id v i, In id ids /\ x509_value id = Some v /\
+                              parse_distinguished_name v = DOk i /\ within i m).
+Proof.
+  intros X subj parse cls Hp Hf name ids leaf rest Hw.
+  rewrite <- (match_iff ids (subj leaf) (map subj rest) Hw), <- kind_pass.
+  change (subj leaf :: map subj rest) with (map subj (leaf :: rest)).
+  rewrite <- (verify_equiv X subj parse cls Hp Hf name). symmetry. apply vkind_pass.
+Qed.
+Print Assumptions C04_gen_verify_pass_iff.
+
+(* the wildcard accepts every chain, whatever the oracle answers *)
+Theorem C04_gen_verify_wildcard :
+  forall (X : Type) (subj : X -> string) parse name ids certs,
+    mem_str wildcard ids = true ->
+    gen_verifier_verifyX509TrustedIdentities parse X subj name ids certs = Some None.
+Proof.
+  intros X subj parse name ids certs H. unfold gen_verifier_verifyX509TrustedIdentities.
+  rewrite C04_gen_Contains_equiv. unfold wildcard in H. rewrite H. reflexivity.
+Qed.
+Print Assumptions C04_gen_verify_wildcard.
+
+(* never on the strength of an intermediate's or root's subject: the code's result is a
+   function of certs[0] only - for every oracle, agreeing with the model or not *)
+Theorem C04_gen_verify_leaf_only :
+  forall (X : Type) (subj : X -> string) parse name ids leaf rest1 rest2,
+    gen_verifier_verifyX509TrustedIdentities parse X subj name ids (leaf :: rest1)
+    = gen_verifier_verifyX509TrustedIdentities parse X subj name ids (leaf :: rest2).
+Proof.
+  intros X subj parse name ids leaf r1 r2. unfold gen_verifier_verifyX509TrustedIdentities.
+  destruct (gen_slices_Contains_string ids "*"); [reflexivity|].
+  generalize (@nil (list (string * string))).
+  induction ids as [|id rest IH]; intros acc.
+  - cbn [gen_verifier_verifyX509TrustedIdentities_loop1]. change 0%Z with (Z.of_nat 0).
+    rewrite !list_get_nth. reflexivity.
+  - cbn [gen_verifier_verifyX509TrustedIdentities_loop1].
+    destruct (str_cut ":" id) as [[p v] f]. destruct f; cbn [negb]; [|reflexivity].
+    destruct (String.eqb p "x509.subject"); cbn [negb]; [|apply IH].
+    destruct (String.eqb v ""); [reflexivity|].
+    destruct (parse v) as [ps [e|]]; cbn [is_none negb]; [reflexivity|apply IH].
+Qed.
+Print Assumptions C04_gen_verify_leaf_only.
+
+(* certs[0] is the only partial operation: on a non-empty chain the code does not panic *)
+Theorem C04_gen_verify_total :
+  forall (X : Type) (subj : X -> string) parse name ids leaf rest,
+    gen_verifier_verifyX509TrustedIdentities parse X subj name ids (leaf :: rest) <> None.
+Proof.
+  intros X subj parse name ids leaf r. unfold gen_verifier_verifyX509TrustedIdentities.
+  destruct (gen_slices_Contains_string ids "*"); [discriminate|].
+  generalize (@nil (list (string * string))).
+  induction ids as [|id rest IH]; intros acc.
+  - cbn [gen_verifier_verifyX509TrustedIdentities_loop1]. rewrite list_len_zero.
+    destruct acc as [|a acc]; [discriminate|].
+    change 0%Z with (Z.of_nat 0). rewrite list_get_nth. cbn [nth_error].
+    destruct (parse (subj leaf)) as [m [e|]]; cbn [is_none negb]; [discriminate|].
+    rewrite verify_loop2. match goal with |- (if ?c then _ else _) <> _ => destruct c end; discriminate.
+  - cbn [gen_verifier_verifyX509TrustedIdentities_loop1].
+    destruct (str_cut ":" id) as [[p v] f]. destruct f; cbn [negb]; [|discriminate].
+    destruct (String.eqb p "x509.subject"); cbn [negb]; [|apply IH].
+    destruct (String.eqb v ""); [discriminate|].
+    destruct (parse v) as [ps [e|]]; cbn [is_none negb]; [discriminate|apply IH].
+Qed.
+Print Assumptions C04_gen_verify_total.
+
+(* ---------- isCriticalFailure: when a failed check rejects the signature ---------- *)
+
+Theorem C04_gen_isCriticalFailure_spec :
+  forall r, gen_verifier_isCriticalFailure r = true <->
+            ValidationResult_Action r = "enforce" /\ ValidationResult_Error r <> None.
+Proof.
+  intros [ty a e]. unfold gen_verifier_isCriticalFailure. cbn [ValidationResult_Action ValidationResult_Error].
+  rewrite andb_true_iff, String.eqb_eq. destruct e; cbn [is_none negb]; intuition congruence.
+Qed.
+Print Assumptions C04_gen_isCriticalFailure_spec.
+
+(* the action of the authenticity check at level strict / audit (Generated.gen_levels) *)
+Definition action_of (log : bool) : string := if log then "log" else "enforce".
+
+(* the observation of the model (class of the authenticity error, and whether Verify
+   rejects) is what the code computes: processSignature stores the error returned by
+   verifyX509TrustedIdentities in the authenticity result (whose error was nil: the
+   chain is trusted) and returns it iff isCriticalFailure *)
+Theorem C04_gen_verify_obs :
+  forall (X : Type) (subj : X -> string) parse cls,
+    parse_agrees parse cls -> parse_errors_foreign parse ->
+  forall name log ids certs r ty,
+    gen_verifier_verifyX509TrustedIdentities parse X subj name ids certs = Some r ->
+    exists v, verify_obs log ids (map subj certs)
+              = OVerify v (gen_verifier_isCriticalFailure (mk_ValidationResult ty (action_of log) r))
+              /\ kind_of v = vkind_of cls (Some r).
+Proof.
+  intros X subj parse cls Hp Hf name log ids certs r ty Hr.
+  exists (verify_identities ids (map subj certs)). unfold verify_obs.
+  pose proof (verify_equiv X subj parse cls Hp Hf name ids certs) as E. rewrite Hr in E.
+  split; [|symmetry; exact E]. f_equal.
+  unfold gen_verifier_isCriticalFailure. cbn [ValidationResult_Action ValidationResult_Error].
+  assert (P : is_pass (verify_identities ids (map subj certs)) = is_none r).
+  { destruct r as [x|].
+    - destruct (verify_identities ids (map subj certs)) eqn:V; try reflexivity.
+      exfalso. apply (proj1 (vkind_pass cls _)) in E. discriminate.
+    - symmetry in E. apply kind_pass in E. rewrite E. reflexivity. }
+  rewrite P. destruct log, r; reflexivity.
+Qed.
+Print Assumptions C04_gen_verify_obs.
+
+(* ---------- validateOverlappingDNs ---------- *)
+
+Definition overlap_err : err :=
+  Err "fmt" "trust policy statement %q has overlapping x509 trustedIdentities, %q overlaps with %q" [].
+
+Lemma overlap_inner (K : unit -> option err) i dn1 l : forall j0,
+  gen_trustpolicy_validateOverlappingDNs_loop2 K (Z.of_nat i) dn1 l (Z.of_nat j0)
+  = if existsb (fun jb => negb (Nat.eqb i (fst jb)) && is_subset_dn (parsedDN_ParsedMap dn1) (snd jb))
+         (combine (seq j0 (List.length (map parsedDN_ParsedMap l))) (map parsedDN_ParsedMap l))
+    then Some overlap_err else K tt.
+Proof.
+  induction l as [|d l IH]; intros j0; [reflexivity|].
+  cbn [List.length seq map combine existsb fst snd gen_trustpolicy_validateOverlappingDNs_loop2].
+  rewrite C04_gen_IsSubsetDN_equiv.
+  replace (Z.eqb (Z.of_nat i) (Z.of_nat j0)) with (Nat.eqb i j0).
+  2:{ destruct (Nat.eqb_spec i j0) as [->|N]; [symmetry; apply Z.eqb_refl|].
+      symmetry. apply Z.eqb_neq. lia. }
+  destruct (negb (Nat.eqb i j0) && is_subset_dn (parsedDN_ParsedMap dn1) (parsedDN_ParsedMap d)); [reflexivity|].
+  cbn [orb]. replace (Z.of_nat j0 + 1)%Z with (Z.of_nat (S j0)) by lia. apply IH.
+Qed.
+
+Lemma existsb_indexed_above {A} (f : A -> bool) i : forall r j1, (i < j1)%nat ->
+  existsb (fun jb => negb (Nat.eqb i (fst jb)) && f (snd jb)) (combine (seq j1 (List.length r)) r) = existsb f r.
+Proof.
+  induction r as [|a r IH]; intros j1 H; [reflexivity|].
+  cbn [List.length seq combine existsb fst snd].
+  replace (Nat.eqb i j1) with false by (symmetry; apply Nat.eqb_neq; lia).
+  cbn [negb andb]. rewrite IH by lia. reflexivity.
+Qed.
+
+Lemma existsb_indexed_skip {A} (f : A -> bool) x r : forall pre j0,
+  existsb (fun jb => negb (Nat.eqb (j0 + List.length pre) (fst jb)) && f (snd jb))
+          (combine (seq j0 (List.length (pre ++ x :: r))) (pre ++ x :: r))
+  = existsb f pre || existsb f r.
+Proof.
+  induction pre as [|a pre IH]; intros j0.
+  - cbn [List.length app seq combine existsb fst snd]. rewrite Nat.add_0_r, Nat.eqb_refl.
+    cbn [negb andb orb]. apply existsb_indexed_above. lia.
+  - cbn [List.length app seq combine existsb fst snd].
+    replace (Nat.eqb (j0 + S (List.length pre)) j0) with false by (symmetry; apply Nat.eqb_neq; lia).
+    cbn [negb andb]. replace (j0 + S (List.length pre))%nat with (S j0 + List.length pre)%nat by lia.
+    rewrite IH, orb_assoc. reflexivity.
+Qed.
+
+Lemma existsb_indexed_skip' {A} (f : A -> bool) x r pre j0 i : i = (j0 + List.length pre)%nat ->
+  existsb (fun jb => negb (Nat.eqb i (fst jb)) && f (snd jb))
+          (combine (seq j0 (List.length (pre ++ x :: r))) (pre ++ x :: r))
+  = existsb f pre || existsb f r.
+Proof. intros ->. apply existsb_indexed_skip. Qed.
+
+Lemma overlap_outer : forall l pre,
+  gen_trustpolicy_validateOverlappingDNs_loop1 (pre ++ l) l (Z.of_nat (List.length pre))
+  = if overlapping (map parsedDN_ParsedMap pre) (map parsedDN_ParsedMap l) then Some overlap_err else None.
+Proof.
+  induction l as [|x r IH]; intros pre; [reflexivity|].
+  cbn [gen_trustpolicy_validateOverlappingDNs_loop1 map overlapping].
+  change 0%Z with (Z.of_nat 0). rewrite overlap_inner, map_app. cbn [map].
+  rewrite existsb_app.
+  match goal with |- (if ?c then _ else _) = (if ?a || ?b || _ then _ else _) =>
+    replace c with (a || b)
+      by (symmetry; apply existsb_indexed_skip'; rewrite map_length; reflexivity);
+    destruct (a || b); [reflexivity|]
+  end.
+  cbn [orb]. specialize (IH (pre ++ [x])). rewrite <- app_assoc in IH. cbn [app] in IH.
+  rewrite app_length, map_app in IH. cbn [List.length map] in IH.
+  replace (Z.of_nat (List.length pre) + 1)%Z with (Z.of_nat (List.length pre + 1)) by lia. exact IH.
+Qed.
+
+(* some identity's attributes are all attributes of another identity of the list *)
+Theorem C04_gen_validateOverlappingDNs_equiv :
+  forall name pds,
+    gen_trustpolicy_validateOverlappingDNs name pds
+    = if overlapping [] (map parsedDN_ParsedMap pds) then Some overlap_err else None.
+Proof.
+  intros name pds. unfold gen_trustpolicy_validateOverlappingDNs. exact (overlap_outer pds []).
+Qed.
+Print Assumptions C04_gen_validateOverlappingDNs_equiv.
+
+(* ---------- validateTrustedIdentities (what NewVerifier enforces) ---------- *)
+
+Inductive wtag := TClass (w : wclass) | TBadDN.
+
+Definition wtable : list (string * wtag) :=
+  [("uses a wildcard trusted identity", TClass WWildcardMixed);
+   ("has an empty trusted identity", TClass WEmpty);
+   ("missing separator", TClass WNoSep);
+   ("without an identity value", TClass WEmptyValue);
+   ("with invalid identity value", TBadDN);
+   ("has overlapping x509 trustedIdentities", TClass WOverlap)].
+
+Fixpoint wclassify (t : list (string * wtag)) (f : string) : option wtag :=
+  match t with
+  | [] => None
+  | (p, k) :: t' => if str_contains p f then Some k else wclassify t' f
+  end.
+
+(* None = an error this function does not produce; the class of an invalid DN is the
+   oracle's error, which the code wraps with %w *)
+Definition wclass_of (cls : err -> dnerr) (r : option err) : option wclass :=
+  match r with
+  | None => Some WOk
+  | Some (Err _ f w) =>
+      match wclassify wtable f, w with
+      | Some (TClass c), _ => Some c
+      | Some TBadDN, [x] => Some (WBadDN (cls x))
+      | _, _ => None
+      end
+  end.
+
+Lemma validate_loop1 parse cls (Hp : parse_agrees parse cls) name : forall ids acc,
+  wclass_of cls (gen_trustpolicy_validateTrustedIdentities_loop1 parse name ids acc)
+  = Some match validate_loop ids with
+         | inl w => w
+         | inr dns => if overlapping [] (map parsedDN_ParsedMap acc ++ dns) then WOverlap else WOk
+         end.
+Proof.
+  induction ids as [|id rest IH]; intros acc.
+  - cbn [gen_trustpolicy_validateTrustedIdentities_loop1 validate_loop].
+    rewrite C04_gen_validateOverlappingDNs_equiv, app_nil_r.
+    destruct (overlapping [] (map parsedDN_ParsedMap acc)); [vm_compute; reflexivity|reflexivity].
+  - cbn [gen_trustpolicy_validateTrustedIdentities_loop1 validate_loop].
+    destruct (String.eqb id ""); [vm_compute; reflexivity|].
+    unfold wildcard, x509_subject, colon. destruct (String.eqb id "*"); cbn [negb]; [apply IH|].
+    rewrite str_cut_byte. destruct (cut_byte ":" id) as [[p v]|]; [|vm_compute; reflexivity].
+    cbn [negb]. destruct (String.eqb p "x509.subject"); cbn [negb]; [|apply IH].
+    destruct (String.eqb v ""); [vm_compute; reflexivity|].
+    pose proof (Hp v) as Hv. destruct (parse_distinguished_name v) as [m|e].
+    + rewrite Hv. cbn [is_none negb]. rewrite IH, map_app. cbn [map parsedDN_ParsedMap].
+      destruct (validate_loop rest) as [w|dns]; [reflexivity|].
+      rewrite <- app_assoc. reflexivity.
+    + destruct Hv as [dn [x [Hv Hc]]]. rewrite Hv. cbn [is_none negb olist]. rewrite <- Hc.
+      reflexivity.
+Qed.
+
+(* the code's validateTrustedIdentities is the model's validate_ids (whose first test,
+   the emptiness of the list, is made by the caller validatePolicyCore: C09_Generated) *)
+Theorem C04_gen_validateTrustedIdentities_equiv :
+  forall parse cls, parse_agrees parse cls ->
+  forall name ids,
+    wclass_of cls (gen_trustpolicy_validateTrustedIdentities parse name ids)
+    = Some (if is_nil ids then WOk else validate_ids ids).
+Proof.
+  intros parse cls Hp name ids. unfold gen_trustpolicy_validateTrustedIdentities, validate_ids.
+  rewrite list_len_gt1, C04_gen_Contains_equiv. unfold wildcard.
+  destruct ids as [|i0 rest]; [reflexivity|]. cbn [is_nil].
+  destruct (Nat.ltb 1 (List.length (i0 :: rest)) && mem_str "*" (i0 :: rest)); [vm_compute; reflexivity|].
+  rewrite (validate_loop1 parse cls Hp). cbn [map app]. reflexivity.
+Qed.
+Print Assumptions C04_gen_validateTrustedIdentities_equiv.
+
+Lemma wclass_ok cls r : wclass_of cls r = Some WOk -> r = None.
+Proof.
+  destruct r as [[t f w]|]; [|reflexivity]. unfold wclass_of, wtable. cbn [wclassify].
+  repeat match goal with |- context [if ?c then _ else _] => destruct c end;
+    try discriminate; destruct w as [|x [|y w]]; discriminate.
+Qed.
+
+(* a non-empty identity list that the code's validateTrustedIdentities accepts: the
+   wildcard only alone, every other identity interpretable ("the LONE wildcard",
+   unreadable identities are refused when the verifier is constructed) *)
+Theorem C04_gen_validated :
+  forall parse cls, parse_agrees parse cls ->
+  forall name ids, ids <> [] ->
+    (gen_trustpolicy_validateTrustedIdentities parse name ids = None <-> validate_ids ids = WOk).
+Proof.
+  intros parse cls Hp name ids Hne.
+  pose proof (C04_gen_validateTrustedIdentities_equiv parse cls Hp name ids) as E.
+  destruct ids as [|i0 rest]; [congruence|]. cbn [is_nil] in E. split.
+  - intros H. rewrite H in E. cbn [wclass_of] in E. injection E as E'. symmetry. exact E'.
+  - intros H. rewrite H in E. exact (wclass_ok cls _ E).
+Qed.
+Print Assumptions C04_gen_validated.
+
+Corollary C04_gen_validated_lone_wildcard_interpretable :
+  forall parse cls, parse_agrees parse cls ->
+  forall name ids, ids <> [] ->
+    gen_trustpolicy_validateTrustedIdentities parse name ids = None ->
+    (mem_str wildcard ids = true -> ids = [wildcard]) /\
+    (forall id, In id ids -> id = wildcard \/ (id <> "" /\ interpretable id)).
+Proof.
+  intros parse cls Hp name ids Hne H. apply (C04_gen_validated parse cls Hp name ids Hne) in H.
+  split; [apply validated_wildcard_lone; exact H|apply validated_interpretable; exact H].
+Qed.
+Print Assumptions C04_gen_validated_lone_wildcard_interpretable.
+
+(* ---------- the hypotheses about the oracle can be met ---------- *)
+
+Definition enc_dnerr (e : dnerr) : err :=
+  match e with
+  | EHash => Err "" "H" [] | ESyntax => Err "" "S" [] | EMulti => Err "" "M" []
+  | EDup k => Err k "D" [] | EMissing k => Err k "X" []
+  end.
+
+Definition dec_dnerr (x : err) : dnerr :=
+  let f := err_fmt x in
+  if String.eqb f "H" then EHash else if String.eqb f "M" then EMulti
+  else if String.eqb f "D" then EDup (err_typ x) else if String.eqb f "X" then EMissing (err_typ x)
+  else ESyntax.
+
+Definition model_oracle (v : string) : amap * option err :=
+  match parse_distinguished_name v with
+  | DOk m => (m, None)
+  | DErr e => ([], Some (enc_dnerr e))
+  end.
+
+Theorem C04_gen_oracle_hypotheses_satisfiable :
+  parse_agrees model_oracle dec_dnerr /\ parse_errors_foreign model_oracle.
+Proof.
+  split.
+  - intros v. unfold model_oracle. destruct (parse_distinguished_name v) as [m|e]; [reflexivity|].
+    exists [], (enc_dnerr e). split; [reflexivity|]. destruct e; reflexivity.
+  - intros v dn x. unfold model_oracle. destruct (parse_distinguished_name v) as [m|e]; [discriminate|].
+    intros H. inversion H. destruct e; reflexivity.
+Qed.
+Print Assumptions C04_gen_oracle_hypotheses_satisfiable.
